@@ -225,6 +225,9 @@ def _impl_observe(raw):
             return {'err': 'inconsistent-input-object'}
         scr = txi.coinbase if cb else txi.script.source
         ins.append([txi.txo_ref.tx_ref.hash.hex(), txi.txo_ref.position, scr.hex(), txi.sequence, cb])
+    for k, txo in enumerate(tx.outputs):
+        if txo.position != k or txo.tx_ref is not tx.ref:
+            return {'err': 'inconsistent-output-object'}
     outs = [[txo.amount, txo.script.source.hex()] for txo in tx.outputs]
     try:
         reser = tx._serialize().hex()
@@ -391,38 +394,37 @@ def glen(rng, big_ok):
 
 
 def g_out_script(rng, big_ok):
-    """every output script kind, through the library's own templates where one exists; data lengths
-    across the push-data and compact-size boundaries"""
-    kind = rng.choice(['p2pkh', 'p2sh', 'claim', 'update', 'support', 'support_data', 'return', 'opaque', 'opaque',
-                       'empty'])
-    h20 = rbytes(rng, 20)
-    name = rbytes(rng, rng.choice([1, 4, 75, 76, 255]))
-    cid = rbytes(rng, 20)
+    """every output script kind: each template in OutputScript.templates filled through the library's own
+    generator, plus opaque bytes and the empty script; data lengths across the push-data and compact-size boundaries"""
+    from lbry.wallet.script import PUSH_SINGLE
+    choices = list(OutputScript.templates) + ['opaque', 'opaque', 'empty']
+    tpl = rng.choice(choices)
     blob = rbytes(rng, glen(rng, big_ok))
-    if kind == 'p2pkh':
-        s = OutputScript.pay_pubkey_hash(h20).source
-    elif kind == 'p2sh':
-        s = OutputScript.pay_script_hash(h20).source
-    elif kind == 'claim':
-        s = OutputScript.pay_claim_name_pubkey_hash(name, blob, h20).source
-    elif kind == 'update':
-        s = OutputScript.pay_update_claim_pubkey_hash(name, cid, blob, h20).source
-    elif kind == 'support':
-        s = OutputScript.pay_support_pubkey_hash(name, cid, h20).source
-    elif kind == 'support_data':
-        s = OutputScript.pay_support_data_pubkey_hash(name, cid, blob, h20).source
-    elif kind == 'return':
-        s = OutputScript.return_data(blob).source
-    elif kind == 'empty':
-        s = b''
-    else:
-        s = blob
-    return kind, s
+    if tpl == 'empty':
+        return 'empty', b''
+    if tpl == 'opaque':
+        return 'opaque', blob
+    values = {}
+    for op in tpl.opcodes:
+        if isinstance(op, PUSH_SINGLE):
+            if op.name in ('claim', 'support', 'data'):
+                values[op.name] = blob
+            elif op.name == 'claim_name':
+                values[op.name] = rbytes(rng, rng.choice([1, 4, 75, 76, 255]))
+            elif op.name == 'pubkey':
+                values[op.name] = rbytes(rng, rng.choice([33, 65]))
+            else:                       # pubkey_hash, script_hash, claim_id
+                values[op.name] = rbytes(rng, 20)
+    return tpl.name, OutputScript(template=tpl, values=values).source
 
 
 def g_in_script(rng, big_ok):
-    kind = rng.choice(['p2pkh', 'p2pkh', 'opaque', 'empty', 'timelock'])
-    if kind == 'p2pkh':
+    kind = rng.choice(['p2pkh', 'p2pkh', 'opaque', 'empty', 'timelock', 'multisig'])
+    if kind == 'multisig':
+        k = rng.choice([1, 2, 3])
+        s = InputScript.redeem_multi_sig_script_hash([rbytes(rng, 72) for _ in range(k)],
+                                                     [rbytes(rng, 33) for _ in range(k + rng.choice([0, 1]))]).source
+    elif kind == 'p2pkh':
         s = InputScript.redeem_pubkey_hash(rbytes(rng, rng.choice([71, 72, 73])), rbytes(rng, 33)).source
     elif kind == 'timelock':
         s = InputScript.redeem_time_lock_script_hash(rbytes(rng, 72), rbytes(rng, 33),
